@@ -298,10 +298,43 @@ def dict_event_factory_case(case):
     return dict(reproduced=bool(violated), violated=violated)
 
 
+def set_copy_case(case):
+    """C07: copy, deepcopy and pickle of a TraitSet yield an equal set that still validates."""
+    import pickle
+    from traits.trait_set_object import TraitSet
+    from traits.trait_errors import TraitError
+    violated = []
+    ts = TraitSet(case["members"], item_validator=_int_only)
+    for name, fn in (("copy.copy", copy.copy), ("copy.deepcopy", copy.deepcopy),
+                     ("pickle", lambda s: pickle.loads(pickle.dumps(s)))):
+        try:
+            c = fn(ts)
+        except Exception as e:
+            violated.append("%s raised %r" % (name, e))
+            continue
+        if not isinstance(c, TraitSet) or set(c) != set(ts):
+            violated.append("%s: result is not an equal TraitSet" % name)
+            continue
+        try:
+            c.add("not an int")
+            violated.append("%s: the copy no longer validates" % name)
+        except TraitError:
+            pass
+    return dict(reproduced=bool(violated), violated=violated)
+
+
+def _int_only(x):
+    from traits.trait_errors import TraitError
+    if not isinstance(x, int):
+        raise TraitError("int required")
+    return x
+
+
 def main():
     case = json.loads(sys.stdin.read())
     fam = case.get("family", "list")
-    out = {"list": list_case, "dict": dict_case, "dict_event_factory": dict_event_factory_case}[fam](case)
+    out = {"list": list_case, "dict": dict_case, "dict_event_factory": dict_event_factory_case,
+           "set_copy": set_copy_case}[fam](case)
     print(json.dumps(out, default=repr))
 
 
